@@ -79,7 +79,7 @@ func runGraphCase(c c05GraphCase) []Finding {
 	return out
 }
 
-func c05Graphs(r *mc.Report, n int, orderDev int, shard, nshards int) {
+func c05Graphs(r *mc.Report, n int, orderDev int, shard, nshards int, lite ...bool) {
 	run := func(c c05GraphCase) {
 		vsched.BaseReverse = c.Reverse
 		defer func() { vsched.BaseReverse = false }()
@@ -128,6 +128,9 @@ func c05Graphs(r *mc.Report, n int, orderDev int, shard, nshards int) {
 		for _, desc := range []bool{false, true} {
 			for _, mode := range []string{"deferred", "immediate"} {
 				for _, rev := range []bool{false, true} {
+					if len(lite) > 0 && lite[0] && (desc || mode == "immediate") {
+						continue // order deviations on 4 nodes: deferred adds, ascending lists, both base orders
+					}
 					run(c05GraphCase{N: n, Mask: mask, Desc: desc, Mode: mode, Reverse: rev})
 				}
 			}
@@ -424,7 +427,7 @@ var _ = graph.NewDependencyGraph
 func init() {
 	mc.Register(&mc.Check{
 		Prop:        "C05",
-		Rule:        "graph component: ALL 2^16 digraphs on 4 labelled nodes (self-loops included; all 2^9 on 3 nodes too) x {AddProviderDeferred all + DetectCycles (asked twice), AddProvider one by one} x dependency-list order {ascending, descending} x canonical / reversed base map order, plus every single non-identity permutation of one map range (order deviation 1) for all 3-node graphs (quick) / all 4-node graphs (thorough); verdicts compared with a colour-DFS on the plain digraph, reported paths checked edge by edge. Container: all digraphs on <=3 services x every per-target dependency form (plain / keyed / group; In-struct and positional consumers) x 3 uniform lifetimes, and all digraphs on 4 services x uniform forms; Build verdict, error class through BuildError, reported path, and termination of resolving every identity. distinct = distinct (size, forms, verdict) classes.",
+		Rule:        "graph component: ALL 2^16 digraphs on 4 labelled nodes (self-loops included; all 2^9 on 3 nodes too) x {AddProviderDeferred all + DetectCycles (asked twice), AddProvider one by one} x dependency-list order {ascending, descending} x canonical / reversed base map order, plus every single non-identity permutation of one map range (order deviation 1) for all 3-node graphs (quick) / additionally all 4-node graphs with deferred adds and ascending lists (thorough); verdicts compared with a colour-DFS on the plain digraph, reported paths checked edge by edge. Container: all digraphs on <=3 services x every per-target dependency form (plain / keyed / group; In-struct and positional consumers) x 3 uniform lifetimes, and all digraphs on 4 services x uniform forms; Build verdict, error class through BuildError, reported path, and termination of resolving every identity. distinct = distinct (size, forms, verdict) classes.",
 		Assume:      []string{"the property's 'randomly beyond 4 nodes' part is not covered: the claim is all graphs with <= 4 nodes"},
 		MinOutcomes: 4,
 		Jobs: func(tier string) []mc.Job {
@@ -441,7 +444,7 @@ func init() {
 			if tier == "thorough" {
 				for sh := 0; sh < 64; sh++ {
 					sh := sh
-					jobs = append(jobs, mc.Job{Name: fmt.Sprintf("c05-graph4-dev1#%d", sh), Weight: 20, Run: func(r *mc.Report) { c05Graphs(r, 4, 1, sh, 64) }})
+					jobs = append(jobs, mc.Job{Name: fmt.Sprintf("c05-graph4-dev1#%d", sh), Weight: 20, Run: func(r *mc.Report) { c05Graphs(r, 4, 1, sh, 64, true) }})
 				}
 			}
 			lifes := []string{"scoped", "singleton", "transient"}
